@@ -1,7 +1,7 @@
 (* The entry point SPDCConfig::try_as_spdc = optional up-front wavelength validation + the conversion steps.
    [validates] is read off the source by the generator (Gen/ConfigSites.v: cfg_validates_wavelengths). *)
 From Coq Require Import String List Bool ZArith QArith.
-From SpdVerif Require Import Base.NumOps Spec.ConfigSpec Gen.ConfigTables Model.ConfigTypes Model.Config Proofs.C17_rules.
+From SpdVerif Require Import Base.CfgNumOps Spec.ConfigSpec Gen.ConfigTables Model.ConfigTypes Model.Config Proofs.C17_rules.
 Import ListNotations.
 
 Section Entry.
